@@ -102,6 +102,9 @@ def rich_specs():
     sp["obstacles"].append({"role": "dynamic", "id": 41, "type": "PEDESTRIAN", "shape": ["circle", 0.4, 0.0, 0.0], "initial_state": spec.init_state(x=3.0, y=6.0, o=1.5, v=1.0, t=1)})
     sp["obstacles"].append({"role": "dynamic", "id": 42, "type": "BUS", "shape": ["poly", [[-3.0, -1.0], [3.0, -1.0], [3.0, 1.0], [-3.0, 1.0]]], "initial_state": spec.init_state(x=30.0, y=2.0, o=0.1, v=2.0, t=3),
                             "prediction": {"k": "set", "t0": 4, "occ": [{"t": 4, "shape": ["rect", 6.0, 2.0, 31.0, 2.0, 0.1]}, {"t": 5, "shape": ["group", [["circle", 1.0, 32.0, 2.0], ["rect", 2.0, 1.0, 34.0, 2.0, 0.0]]]}]}})
+    # static obstacles whose initial state carries a time step > 0 (they occupy their region at every time)
+    sp["obstacles"].append({"role": "static", "id": 43, "type": "CONSTRUCTION_ZONE", "shape": ["rect", 3.0, 1.0, 0.0, 0.0, 0.0], "initial_state": spec.init_state(x=18.0, y=5.5, o=0.2, v=0.0, t=5)})
+    sp["obstacles"].append({"role": "static", "id": 44, "type": "ROAD_BOUNDARY", "shape": ["circle", 0.6, 0.0, 0.0], "initial_state": spec.init_state(x=22.0, y=6.0, o=0.0, v=0.0, t=12)})
     out["late-obstacles"] = sp
     return out
 
@@ -356,8 +359,13 @@ def propagation(res, shard, of):
                 continue
             field = f.name
             # fresh tree
-            for prior, how in [(None, "attr"), (None, "item")] + [(d, "attr") for d in declaring(MPDrawParams(), path, field)]:
+            for prior, how in [(None, "attr"), (None, "item"), (None, "attr-on-deepcopy"), (None, "attr-on-pickle")] + [(d, "attr") for d in declaring(MPDrawParams(), path, field)]:
                 root = MPDrawParams()
+                if how == "attr-on-deepcopy":
+                    root = copy.deepcopy(root)          # parameter trees are copied around (one per frame, per thread): a copy behaves like the original
+                elif how == "attr-on-pickle":
+                    import pickle
+                    root = pickle.loads(pickle.dumps(root))
                 case = {"k": "propagation", "group": list(path), "field": field, "prior": None if prior is None else list(prior), "assignment": how}
                 res.evals += 1; res.transitions += 1; res.nontrivial += 1
                 try:
@@ -383,7 +391,7 @@ def propagation(res, shard, of):
                     if fl == field and (p == tuple(path) or p in below):
                         if v != target:
                             depth = len(p) - len(path)
-                            res.violation(f"C19|propagation|{('fresh' if how == 'attr' else 'fresh:item-assignment') if prior is None else 'after-nested-assignment'}|not-propagated:depth={depth}",
+                            res.violation(f"C19|propagation|{('fresh' if how == 'attr' else 'fresh:' + {'item': 'item-assignment'}.get(how, how)) if prior is None else 'after-nested-assignment'}|not-propagated:depth={depth}",
                                           f"{case}: {'.'.join(p) or '<root>'}.{field} is {v!r}, expected {target!r}", case)
                     elif before[(p, fl)] != v:
                         res.violation(f"C19|propagation|unrelated-parameter-changed", f"{case}: {'.'.join(p)}.{fl} changed from {before[(p, fl)]!r} to {v!r}", case)
